@@ -513,7 +513,7 @@ Definition stratify_with (m : model) (s0 : strat) : result model :=
   do mixcats <- (match s_mix s with
                  | Some _ =>
                      check guard (negb (is_strain (s_kind s))) "Strains cannot have a mixing matrix.";
-                     check guard (list_str_eqb (s_comps s) (m_orig m))
+                     check guard (set_eq_str (s_comps s) (m_orig m))
                                   "Mixing matrices only allowed for full stratification.";
                      Ok (flat_map (fun mc => map (fun st => mc ++ [(s_name s, st)]) (s_strata s)) (m_mixcats m))
                  | None => Ok (m_mixcats m) end);
@@ -535,7 +535,7 @@ Definition stratify_with (m : model) (s0 : strat) : result model :=
   do m2 <- (if is_age (s_kind s) then
               check guard (negb (existsb (fun s' => is_age (s_kind s')) (m_strats m)))
                            "Age stratification can only be applied once";
-              check guard (list_str_eqb (s_comps s) (m_orig m))
+              check guard (set_eq_str (s_comps s) (m_orig m))
                            "Age stratification only allowed for full stratification.";
               fold_left (fun r fs => do m' <- r; add_flow m' fs) (ageing_specs s prev) (Ok m1)
             else Ok m1);
